@@ -136,6 +136,10 @@ func DisjunctPeriods
     loop 1,2,3 invariant total: Sum(periods, len(periods)) == cadd(Sum(periodsA, idxPeriodsA), Sum(periodsB, idxPeriodsB))
     loop 1,2,3 invariant lens: forall k int :: 0 <= k && k < len(periods) ==> periods[k].Length >= 0
     loop 1,2,3 back use SchedFrame(startTime, head(periods), periods, len(head(periods)), t)
+    // (agent W, C09 message layer) the merged schedule ends no earlier than either non-empty input schedule
+    ensures c09m_end: (len(periodsA) > 0 ==> result.1 >= T(startTimePeriodsA, periodsA, len(periodsA)))
+            && (len(periodsB) > 0 ==> result.1 >= T(startTimePeriodsB, periodsB, len(periodsB)))
+    loop 1,2,3 invariant c09m_ends: (idxPeriodsA > 0 ==> timePeriodA <= endTime) && (idxPeriodsB > 0 ==> timePeriodsB <= endTime)
 
 // ------------------------------------------------------------------ C09: pointwise minimum (cap) of two schedules
 func ConjunctPeriods
